@@ -217,9 +217,9 @@ fn c01(seed: u64, case: u64, out: &Out) {
         }
         let alive = probes_sent > 0 && probes_ran * 2 >= probes_sent.saturating_sub(2);
         let kind = if alive { "task-stranded-while-runtime-keeps-scheduling" } else { "runtime-stopped-scheduling-with-tasks-outstanding" };
-        // a stalled runtime is attributed by what makes worker coroutines migrate between loop threads: several loops + suspending tasks
-        let suspending = matches!(body, Body::Suspend | Body::Delay1ms);
-        let ctx = if !alive && loops > 1 && suspending { "multi-loop-with-suspending-tasks" } else if submitters > 1 { "multi-submitter" } else { "single-submitter" };
+        // a stalled runtime is attributed by what makes worker coroutines migrate between loop threads: several loops sharing one ready
+        // queue (idle workers park themselves too, so the task bodies need not suspend for a parked coroutine to be stolen)
+        let ctx = if !alive && loops > 1 { "multi-loop" } else if submitters > 1 { "multi-submitter" } else { "single-submitter" };
         out.end(case, Verdict::Violated, &format!("C01/{kind}/{ctx}"), true, &fp, obs,
             &format!("{} of {total} tasks never ran (e.g. uid {}), no new execution for 3 s; heartbeat probes executed {probes_ran}/{probes_sent}", never.len(), never[0]));
     } else {
